@@ -75,7 +75,7 @@ func verifRefEqual(a, b any) bool {
 func TestVerifStandinEqual(t *testing.T) {
 	thorough := os.Getenv("VERIF_TIER") == "thorough"
 	atoms := []string{"null", "true", "false", "0", "-0", "1", "1.0", "1e0", "10", "1e1", "0.5", "5e-1", "-1",
-		"12345678901234567890", "12345678901234567891", "1e400", `""`, `"a"`, `"a"`, `"\n"`, `"\\n"`, `"/"`, `"\/"`, `"A"`}
+		"12345678901234567890", "12345678901234567891", "1e400", `""`, `"a"`, `"\u0061"`, `"\n"`, `"\\n"`, `"/"`, `"\/"`, `"A"`}
 	texts := append([]string{}, atoms...)
 	level := append([]string{}, atoms...)
 	depth := 1
